@@ -115,8 +115,8 @@ def update_all(ctx):
     ctx.ob("C06.update_all", "one update per mineral, in order", ok_n, f"{len(calls)} calls for {len(ms)} minerals", loc)
     ctx.ob("C06.update_all", "common starting F", all(arg(c, "deformation_gradient", 1) is F0 for c in calls),
            "every mineral must receive the caller's deformation_gradient (F is independent of the phase)", loc)
-    ctx.ob("C06.update_all", "same params/L/pathline", all(arg(c, "params", 0) is params and arg(c, "get_velocity_gradient", 2) is Lf
-                                                           and arg(c, "pathline", 3) is path for c in calls), "", loc)
+    ctx.ob("C06.update_all", "same velocity-gradient callable and pathline", all(arg(c, "get_velocity_gradient", 2) is Lf
+                                                                              and arg(c, "pathline", 3) is path for c in calls), "", loc)
     kws = [{k: keyof(v) for k, v in c[2].items() if k not in ("params", "deformation_gradient", "get_velocity_gradient", "pathline", "get_regime")} for c in calls]
     ctx.ob("C06.update_all", "every mineral receives the caller's solver options", all(k == kws[0] for k in kws) and set(kws[0]) == {"rtol", "max_step"},
            f"extra keyword arguments per call: {[sorted(k) for k in kws]}", loc)
